@@ -62,7 +62,7 @@ class Model:
         self.max_raise = 0          # largest raise increment this round
         self.raises = 0
         self.acted: list = []       # players who acted since the last full raise
-        self.short: list = []       # consecutive all-in raise increments
+        self.short: list = []       # all-in raises for less than a full raise since the last full raise
         self.bring_in_due = (st.street_index == 0 and st.bring_in > 0)
         self.completion_due = self.bring_in_due
         self.bring_in = st.bring_in
@@ -125,12 +125,10 @@ class Model:
         i = self.actor()
         if self.cap is not None and self.raises >= self.cap:
             return False
-        if self.short:
-            s = 0
-            for x in self.short:
-                s += x
-            if s < self.max_raise and i in self.acted:
-                return False
+        # a player who has acted since the last full raise may raise again only when what he faces
+        # now (the short all-in raises made since he acted, together) amounts to a full raise
+        if self.short and i in self.acted and self.max_bet() - self.bet[i] < self.max_raise:
+            return False
         if self.stack[i] <= self.max_bet() - self.bet[i]:
             return False
         for j in range(self.n):
@@ -200,15 +198,15 @@ class Model:
         self.bring_in_due = False
         self.completion_due = False
         if inc >= self.max_raise:
+            # a full raise (all-in or not): everybody else has to respond to it afresh
             self.acted = []
+            self.short = []
+        else:
+            self.short.append(inc)      # less than a full raise: only possible all-in
         self.acted.append(i)
         if inc > self.max_raise:
             self.max_raise = inc
         self.raises += 1
-        if self.stack[i] > 0:
-            self.short = []
-        else:
-            self.short.append(inc)
         self.queue = [(i + k) % self.n for k in range(1, self.n)]
         self.queue = [j for j in self.queue if self.live[j] and self.stack[j] > 0]
         self.check_over()
@@ -428,6 +426,12 @@ def jobs(tier: str, seed: int) -> list[dict]:
     # two consecutive short all-ins (symbolic stacks) after a full raise to 12: below, exactly and above a full raise
     add('NT/n4/rule96/2RRc', 7, code='NT', n=4, depth=5, script='2RRc', fixed={'1': 1000, '2': 1000},
         maxstack=60, cover=['done', 'raise-refused', 'raise-allowed'])
+    # F16: a player who acted AFTER part of the all-in raises faces less than a full raise although the all-in raises
+    # together reach one (4 players): full all-in raise + short all-in; two short all-ins with a caller in between
+    add('NT/n4/rule96/full-all-in-then-short', 7, code='NT', n=4, depth=6, script='2RcRc', fixed={'0': 1000, '2': 1000},
+        maxstack=40, cover=['done', 'raise-refused', 'raise-allowed'])
+    add('NT/n4/rule96/short-call-short', 7, code='NT', n=4, depth=7, script='2RcRcc', fixed={'0': 1000, '2': 1000},
+        maxstack=40, cover=['done', 'raise-refused', 'raise-allowed'])
     if tier == 'thorough':
         for code in games:
             for k, part in enumerate(weak_orders(['s0', 's1', 's2'])):
